@@ -269,11 +269,10 @@ class FuncInfo:
         while stack:
             n = stack.pop()
             yield n
+            if not include_nested and isinstance(n, (ast.FunctionDef, ast.AsyncFunctionDef, ast.ClassDef)):
+                # the def node itself is yielded (it is a statement of this body), its body is not
+                continue
             for c in ast.iter_child_nodes(n):
-                if not include_nested and isinstance(c, (ast.FunctionDef, ast.AsyncFunctionDef, ast.ClassDef)):
-                    # still yield the def node itself (decorators / defaults evaluate here)
-                    yield c
-                    continue
                 stack.append(c)
 
     def loc(self, node: Optional[ast.AST] = None) -> str:
